@@ -2181,6 +2181,152 @@ fn run_cancelwrite(ws: &[&str], stats: &mut Stats) -> Vec<String> {
 }
 
 // ---------------------------------------------------------------------------------------------
+// (g) waiters must not occupy the runtime's blocking pool (file_creation.rs:208-212)
+
+/// threads of `pid` that are inside flock(2) right now (x86_64: system call 73)
+fn threads_in_flock(pid: u32) -> usize {
+    let mut n = 0;
+    if let Ok(rd) = std::fs::read_dir(format!("/proc/{pid}/task")) {
+        for e in rd.flatten() {
+            if let Ok(sc) = std::fs::read_to_string(e.path().join("syscall")) {
+                if sc.split_whitespace().next() == Some("73") {
+                    n += 1;
+                }
+            }
+        }
+    }
+    n
+}
+
+/// `--c16-poolwait-child <dest> <seed> <K> <W>`: one runtime whose blocking pool has K threads. Creator 0 enters its
+/// write callback (which writes through a `tokio::fs::File`, like the real callbacks) and waits for `GO`; W more
+/// creators of the same destination then wait for the lock. If waiting for the lock used the blocking pool, the
+/// holder's write could never run.
+fn poolwait_child_main(args: &[String]) -> ! {
+    let dest = PathBuf::from(&args[0]);
+    let seed: u64 = args[1].parse().unwrap();
+    let k: usize = args[2].parse().unwrap();
+    let w: usize = args[3].parse().unwrap();
+    let say = |s: &str| {
+        let mut o = std::io::stdout().lock();
+        let _ = writeln!(o, "{s}");
+        let _ = o.flush();
+    };
+    let rt = tokio::runtime::Builder::new_multi_thread().worker_threads(2).max_blocking_threads(k).enable_all().build().unwrap();
+    rt.block_on(async move {
+        let (htx, hrx) = tokio::sync::oneshot::channel::<()>();
+        let (gtx, grx) = tokio::sync::oneshot::channel::<()>();
+        let d0 = dest.clone();
+        let holder = tokio::spawn(async move {
+            create_file_cleanly(
+                &d0,
+                |file: std::fs::File| async move {
+                    use tokio::io::AsyncWriteExt;
+                    let _ = htx.send(());
+                    let _ = grx.await;
+                    let mut f = tokio::fs::File::from_std(file);
+                    for ch in payload_chunks(seed, 0, 2) {
+                        f.write_all(&ch).await.map_err(|e| CbErr(e.to_string()))?;
+                    }
+                    f.flush().await.map_err(|e| CbErr(e.to_string()))?;
+                    Ok::<Made, CbErr>(Made::Created)
+                },
+                || async { Ok::<Made, CbErr>(Made::Existing) },
+            )
+            .await
+        });
+        let _ = hrx.await;
+        let waiters: Vec<_> = (0..w)
+            .map(|_| {
+                let d = dest.clone();
+                tokio::spawn(async move {
+                    create_file_cleanly(
+                        &d,
+                        |mut file: std::fs::File| async move {
+                            for ch in payload_chunks(seed, 1, 1) {
+                                file.write_all(&ch).map_err(|e| CbErr(e.to_string()))?;
+                            }
+                            Ok::<Made, CbErr>(Made::Created)
+                        },
+                        || async { Ok::<Made, CbErr>(Made::Existing) },
+                    )
+                    .await
+                })
+            })
+            .collect();
+        say("WAITING");
+        tokio::task::block_in_place(|| {
+            let mut line = String::new();
+            let _ = std::io::stdin().lock().read_line(&mut line);
+        });
+        let _ = gtx.send(());
+        let (mut created, mut existing, mut err) = (0, 0, 0);
+        for h in std::iter::once(holder).chain(waiters) {
+            match h.await {
+                Ok(Ok(Made::Created)) => created += 1,
+                Ok(Ok(Made::Existing)) => existing += 1,
+                _ => err += 1,
+            }
+        }
+        say(&format!("RESULT {created} {existing} {err}"));
+    });
+    std::process::exit(0);
+}
+
+fn run_poolwait(ws: &[&str], stats: &mut Stats) -> Vec<String> {
+    let k = kv_num(ws, "k", 2).max(1);
+    let w = kv_num(ws, "waiters", 3);
+    let seed = kv_num(ws, "seed", 1) as u64;
+    let dir = work_dir();
+    let dest = dir.join("cache.bin");
+    let exe = std::env::current_exe().unwrap();
+    let mut cmd = Command::new(&exe);
+    cmd.arg("--c16-poolwait-child").arg(&dest).arg(seed.to_string()).arg(k.to_string()).arg(w.to_string());
+    cmd.stdin(Stdio::piped()).stdout(Stdio::piped()).stderr(Stdio::null());
+    std::os::unix::process::CommandExt::process_group(&mut cmd, 0);
+    let mut child = cmd.spawn().expect("spawn poolwait child");
+    CHILD_GROUPS.lock().unwrap().push(child.id());
+    let mut to_child = child.stdin.take().unwrap();
+    let stdout = child.stdout.take().unwrap();
+    let (tx, rx) = std::sync::mpsc::channel::<String>();
+    std::thread::spawn(move || {
+        for l in BufReader::new(stdout).lines().map_while(Result::ok) {
+            let _ = tx.send(l);
+        }
+    });
+    let mut result: Option<(usize, usize, usize)> = None;
+    if let Ok(l) = rx.recv_timeout(Duration::from_secs(20)) {
+        if l.starts_with("WAITING") {
+            // all waiters that can wait do so: W threads in flock (the real code), or as many as the pool has
+            let t = Instant::now();
+            while threads_in_flock(child.id()) < w.min(k) && t.elapsed() < Duration::from_secs(5) {
+                std::thread::sleep(Duration::from_millis(1));
+            }
+            std::thread::sleep(Duration::from_millis(30));
+            stats.add("poolwait_threads_in_flock", threads_in_flock(child.id()) as u64);
+            let _ = writeln!(to_child, "GO");
+            if let Ok(l) = rx.recv_timeout(Duration::from_secs(8)) {
+                let v: Vec<usize> = l.split_whitespace().skip(1).filter_map(|x| x.parse().ok()).collect();
+                if l.starts_with("RESULT") && v.len() == 3 {
+                    result = Some((v[0], v[1], v[2]));
+                }
+            }
+        }
+    }
+    unsafe {
+        libc::kill(-(child.id() as i32), libc::SIGKILL);
+    }
+    let _ = child.wait();
+    let fin = final_line(&dest, seed);
+    stats.bump(&format!("poolwait_k_{k}"));
+    let _ = std::fs::remove_dir_all(&dir);
+    match result {
+        Some((c, e, r)) => vec![format!("poolwait created={c} existing={e} err={r} stuck=0"), fin],
+        None => vec![format!("poolwait created=0 existing=0 err=0 stuck={}", w + 1), fin],
+    }
+}
+
+// ---------------------------------------------------------------------------------------------
 
 pub struct C16;
 
@@ -2293,6 +2439,9 @@ impl Prop for C16 {
             push(format!("{mode}-empty-payload"), round_line(mode, 3, 0, 0, &[], &[0], "-", 2, "-", next_seed()));
             push(format!("{mode}-fail-empty-payload"), round_line(mode, 4, 0, 0, &[Fate::Fail(0)], &[2, 0], "-", 2, "-", next_seed()));
         }
+        // (g) as many waiters as the runtime's blocking pool has threads, and more, while the holder's callback needs the pool
+        push("poolwait-2-3".into(), format!("poolwait k=2 waiters=3 seed={}", next_seed()));
+        push("poolwait-1-1".into(), format!("poolwait k=1 waiters=1 seed={}", next_seed()));
         // (f) a creator cancelled while a write of its tokio::fs::File is in flight (shorter / longer than the next one)
         push("cancelwrite-shorter".into(), cancelwrite_line(20, 200, next_seed()));
         push("cancelwrite-download".into(), cancelwrite_download_line(300, 700, next_seed()));
@@ -2326,6 +2475,10 @@ impl Prop for C16 {
         if tier == Tier::Thorough && rng.chance(1, 500) {
             let (a, b) = if rng.chance(1, 2) { (rng.range(5, 60), rng.range(100, 400)) } else { (rng.range(100, 400), rng.range(5, 60)) };
             return vec![if rng.chance(1, 2) { cancelwrite_line(a as usize, b as usize, seed) } else { cancelwrite_download_line(a as usize + 100, b as usize + 100, seed) }];
+        }
+        if rng.chance(1, 150) {
+            let k = rng.range(1, 4);
+            return vec![format!("poolwait k={k} waiters={} seed={seed}", k + rng.below(3))];
         }
         if rng.chance(1, 30) {
             let what = *rng.pick(&["none", "fsize-first", "fsize-last", "fsize-last", "fsize-lastbyte", "fsize-exact", "abort-first", "abort-last"]);
@@ -2415,6 +2568,7 @@ impl C16 {
             Some("download") => run_download(&ws, stats),
             Some("symindexfault") => run_symindex_fault(&ws, stats),
             Some("cancelwrite") => run_cancelwrite(&ws, stats),
+            Some("poolwait") => run_poolwait(&ws, stats),
             _ => vec!["bad-op".into()],
         }
     }
@@ -2427,6 +2581,9 @@ fn main() {
     }
     if args.get(1).map(|s| s.as_str()) == Some("--c16-download-child") {
         download_child_main(&args[2..]);
+    }
+    if args.get(1).map(|s| s.as_str()) == Some("--c16-poolwait-child") {
+        poolwait_child_main(&args[2..]);
     }
     if args.get(1).map(|s| s.as_str()) == Some("--c16-cancelwrite-child") {
         cancelwrite_child_main(&args[2..]);
